@@ -168,9 +168,9 @@ PROPS.update({
     "C19": {
         "level": "exploration",
         "lanes": {"quick": L(dbg=4, rel=4, asan=2, miri=4), "thorough": L(dbg=8, rel=8, asan=4, miri=8)},
-        "rule": "grammar-generated documents: every sequence of up to L field keys over {num_cols, num_rows, data, extra, num_col} (every subset, order and duplication of the three fields plus unknown ones), dimension literals {0,1,2,3,4,6,2^32,2^63,2^64-1,2^64,-1,1.5,1e3,2.0,\"3\",null,true,[],{},[2],-2^63-1,1E400}, data arrays of length prod-1, prod, prod+1, 0,1,2 with well- and ill-typed elements, non-array data; element types u32, String, Option<u8>; with/without whitespace; plus byte-level mutations (truncate, bit flip, delete, insert, duplicate a span), top-level non-objects, and an overflow-wrap sweep: every pair of huge dimension literals (2^31..2^64-1, incl. pairs whose product wraps to a small number) with data lengths equal to the WRAPPED product, 0, 1, 2. Each document goes through from_str, from_slice, from_reader, from_value. An independent classifier over the generated structure says must-reject (no consistent combination of stated occurrences) / must-accept-as-stated (exactly the three fields, consistent) / either (unknown or duplicated fields: if accepted, dims and cells must be those of a consistent combination of stated occurrences). Never a panic; every accepted array satisfies the shape invariant. distinct = (element type, field pattern with value classes, class).",
+        "rule": "grammar-generated documents: every sequence of up to L field keys over {num_cols, num_rows, data, extra, num_col} (every subset, order and duplication of the three fields plus unknown ones), dimension literals {0,1,2,3,4,6,2^32,2^63,2^64-1,2^64,-1,1.5,1e3,2.0,\"3\",null,true,[],{},[2],-2^63-1,1E400}, data arrays of length prod-1, prod, prod+1, 0,1,2 with well- and ill-typed elements, non-array data; element types u32, String, Option<u8>; with/without whitespace; plus byte-level mutations (truncate, bit flip, delete, insert, duplicate a span), top-level non-objects, and an overflow-wrap sweep: every pair of huge dimension literals (2^31..2^64-1, incl. pairs whose product wraps to a small number) with data lengths equal to the WRAPPED product, 0, 1, 2. Each document goes through from_str, from_slice, from_reader, from_value. An independent classifier over the generated structure says must-reject (no consistent combination of stated occurrences) / consistent (exactly the three fields, consistent: if accepted - and the clean tree accepts all of them - dims and cells must be exactly as stated; a refusal is counted as consistent_rejected but is not a C19 violation) / either (unknown or duplicated fields: if accepted, dims and cells must be those of a consistent combination of stated occurrences). Never a panic; every accepted array satisfies the shape invariant. distinct = (element type, field pattern with value classes, class).",
         "must_observe": ["accepted", "rejected", "mutated_docs", "doc_classes", "overflow_wrap_docs"],
-        "text": "Runtime exploration with a document grammar and an independent classifier: the deserialiser must never panic, must reject every inconsistent document, must accept consistent ones exactly as stated, and every accepted array must satisfy the shape invariant, over all four serde_json transports.",
+        "text": "Runtime exploration with a document grammar and an independent classifier: the deserialiser must never panic, must reject every inconsistent document, whatever it accepts must be exactly what the document states, and every accepted array must satisfy the shape invariant, over all four serde_json transports.",
         "design_ref": "DESIGN.md 5 (C19)", "technique": "runtime monitoring: grammar-based input generation + independent reference classifier + never-panic/shape oracle",
     },
     "C20": {
